@@ -40,7 +40,8 @@ CHECKS['C17'] = {
              '(fn items passed as values and closures are call edges) reference no static, thread-local or LocalKey, make no indirect call and no pointer<->integer conversion, '
              'and every external callee belongs to a crate classified pure (core/std/alloc/byteorder/hex/chomp/anyhow) and matches none of the ambient-state deny patterns '
              '(rand, time, env, fs, io, sockets, process, thread, RandomState/HashMap, sync, libc, uninitialised memory). rand is called only from ParsedPacket::empty and its value flows only into set_tid. '
-             'With no state surviving a call and no ambient input, equal arguments give equal results whatever ran before or runs concurrently.'),
+             'With no state surviving a call and no ambient input, equal arguments give equal results whatever ran before or runs concurrently.'
+             ' The same holds below every getter of the parsed object and every C-table entry, with throw_err (the only legitimate user of the thread-local error slot) cut out of the call graph.'),
     'note': 'Trusted: the per-crate classification in tables/extern_effects.json (dependency MIR is not re-analysed), rustc MIR/trait resolution. Unclassified leaves fail closed.',
 }
 CHECKS['C03'] = {
@@ -52,7 +53,8 @@ CHECKS['C03'] = {
              '(d) ResponseIterator::next is next_including_opt followed by a skip that advances only under rr_type() == Type::OPT. '
              'Does NOT decide that the values returned equal an independent decode for every accepted packet, nor panic-freedom of the trusted readers (run-time invariants of accepted packets).'
              ' (f) a step function returns None only on the true side of a `<header count | edns_count | rrs_left> == 0` test.'
-             ' (g) the premise of the unchecked address readers: every accepting path with type A / AAAA passed the exact-size test.'),
+             ' (g) the premise of the unchecked address readers: every accepting path with type A / AAAA passed the exact-size test.'
+             ' (h) every assertion in the trusted name skipper is implied (linear entailment) by what the validator guarantees behind a name position.'),
     'note': 'Structural clauses only; the behavioural equality with an RFC 1035 decode is not claimed. Trusted: rustc MIR, the rule engines.',
 }
 CHECKS['C08'] = {
@@ -65,7 +67,8 @@ CHECKS['C08'] = {
              '(e) RRIterator::recompute derives offset_next per section exactly as the iterator of that section does; (f) re-parse writers copy all five offsets from same-named fields, compare the EDNS summaries and install the parsed bytes; '
              '(h, E4) every closure that shifts a recorded offset in resize_rr / insert_rr returns x or x + the splice amount on each path, identity paths confined to offsets at or before the cursor, and the offset_edns closure of resize_rr distinguishes OPT before / behind the resized record; '
              '(g) no operation returns Ok with the packet taken out. These are necessary conditions of "object view == fresh parse"; the equality itself over arbitrary operation sequences is a run-time relation and is NOT decided.'
-             ' (i) no cursor position read before the packet is replaced by its decompressed form is used after the replacement.'),
+             ' (i) no cursor position read before the packet is replaced by its decompressed form is used after the replacement.'
+             ' (f) path-sensitively: no successful path installs new packet bytes without refreshing all five recorded offsets.'),
     'note': 'Structural clauses only. Known unclaimed corner: in-place decompression under an EDNS-option cursor (D19, DESIGN.md section 5). Trusted: rustc MIR, the rule engines.',
 }
 CHECKS['C10'] = {
@@ -87,7 +90,8 @@ CHECKS['C11'] = {
              'the count == 0 -> None test on the current header count and rrs_left is re-initialised only under offset.is_none(); (c) advances and rrs_left decrements are paired on all paths (termination measure). '
              'Which records are yielded/survive for every deletion pattern is a run-time sequence property and is NOT decided.'
              ' (d) in delete the cursor offset is tested (VoidRecord) before any destructive event and before any unwrap/expect of it, in the ok_or, match and is_some forms.'
-             ' (e) current_section answers only sections rrcount_dec has an arm for, each non-Question verdict dominated by offset >= that section\'s start.'),
+             ' (e) current_section answers only sections rrcount_dec has an arm for, each non-Question verdict dominated by offset >= that section\'s start.'
+             ' (f) the splice of a deletion happens only where the packet is known to be pointer-free (the C09.e automaton on delete).'),
     'note': 'Structural clauses only. Trusted: rustc MIR, rule engines.',
 }
 CHECKS['C12'] = {
@@ -109,7 +113,8 @@ CHECKS['C09'] = {
              '(e) insert_rr / set_raw_name / delete resize the buffer or overwrite name bytes only on paths where maybe_compressed is known false (so no other record\'s pointer is invalidated). '
              'The splice geometry (C09.a) is decided by the E4 clause when built. Byte identity of all other records after an operation is a run-time equality and is NOT decided.'
              ' (a-offsets, E4) the closures shifting recorded offsets add exactly the splice amount with the right confinement to the cursor; (d-delete) delete lowers the count of the section determined before the splice.'
-             ' (d-sections) current_section answers only sections the count helpers handle, each verdict guarded by that section\'s start offset.'),
+             ' (d-sections) current_section answers only sections the count helpers handle, each verdict guarded by that section\'s start offset.'
+             ' (g) a refused insertion returns before any byte, count or offset was touched (the C10.a automaton on insert_rr).'),
     'note': 'Structural clauses only. Trusted: tables/rfc_layout.json, rustc MIR, rule engines.',
 }
 CHECKS['C04'] = {
@@ -191,7 +196,8 @@ CHECKS['C05'] = {
     'text': ('Decides: (a) uncompress_rdata expands names in exactly the validator\'s name-bearing types; (b) each data length it rewrites provably equals the bytes emitted behind the record header (E4 equalities, incl. the lemma that copy_uncompressed_name returns the growth of its output), '
              'fixed parts 4/10/12/20 and name-walk start positions (second SOA name at the first one\'s wire end); (c) the additional section is walked with OPT included in every re-emitter; (d) the reference-offset test precedes the first append of each record and the end-of-packet boundary is translated; '
              '(e) copy_uncompressed_name keeps the position behind the first pointer exactly like the validator\'s walker. NOT decided: byte identity of the expanded names, idempotence, acceptance of the output (run-time relations).'
-             ' (g) every section walk expands the owner name with copy_raw_name in the same loop iteration; no name_slice bytes are appended to the output.'),
+             ' (g) every section walk expands the owner name with copy_raw_name in the same loop iteration; no name_slice bytes are appended to the output.'
+             ' Every name re-emitted inside record data is followed by a data-length rewrite on every successful path; no append below the decompressor copies a whole wire name verbatim.'),
     'note': 'Trusted: analysis/interp.py contracts, tables/policy.json, rustc MIR.',
 }
 CHECKS['C06'] = {
@@ -202,7 +208,8 @@ CHECKS['C06'] = {
              '(b) compress_rdata: name-bearing set, data-length accounting (E4), fixed parts, OPT-including walk in compress(); (c) pointer bytes are (ref >> 8) | 0xc0, ref & 0xff of the dictionary result, an offset is stored / a hit returned only under offset < 16384 (exact constant, dominating test) and only for suffixes >= 3 bytes. '
              'NOT decided: case-insensitive matching, that decompressing gives the input back, the 16-pointer budget of the output (D18), table wrap-around.'
              ' (d) no copy from the input packet below compress() takes an open-ended range packet[a..] (records behind the copied one would be emitted twice).'
-             ' (e) the comparison step of the suffix dictionary is ASCII case-insensitive equality for all 65536 byte pairs (E3).'),
+             ' (e) the comparison step of the suffix dictionary is ASCII case-insensitive equality for all 65536 byte pairs (E3).'
+             ' Every name re-emitted inside record data is followed by a data-length rewrite on every successful path.'),
     'note': 'SuffixDict::insert is opaque for the accounting. Trusted: analysis/interp.py contracts.',
 }
 CHECKS['C07'] = {
@@ -214,7 +221,8 @@ CHECKS['C07'] = {
              'Validation-before-commit is decided under C10.a. NOT decided: which names match (run-time comparison), identity-rename equality.'
              ' (e) typestate over the label walk of replace_raw: a rewritten name is returned only on paths where name.len() - source.len() was found equal to a label boundary of the name.'
              ' (f, E4) the bytes compared for a label are exactly the label_len bytes behind its length byte, aligned with the source (per-byte closure analysed for a generic index, or slices).'
-             ' (g) every comparison between name and source is the standard eq_ignore_ascii_case or a closure that E3 shows to be ASCII case-insensitive equality for all 65536 byte pairs.'),
+             ' (g) every comparison between name and source is the standard eq_ignore_ascii_case or a closure that E3 shows to be ASCII case-insensitive equality for all 65536 byte pairs.'
+             ' (h) every offset / index range into the input packet in rename_response_section is computed from the input only; data lengths are rewritten on every successful path.'),
     'note': 'Helpers above the size threshold are havocked for the accounting. Trusted: analysis/interp.py contracts.',
 }
 CHECKS['C13'] = {
